@@ -125,8 +125,11 @@ PROPS["C10"] = dict(
          " inline fragment, spread, operation), undefined type condition (inline / named fragment) - in any reachable or unreachable"
          " selection set, under root, object, interface (reflection) and union-member containers, strategies R / root / reflection / mixed."
          " Oracle: errors non-empty (naming the field/argument); no logged resolver call for the defective selection / with the undeclared"
-         " argument; if data is present it equals the defect-free reference apart from the defective key. Non-trivial = depth >= 2 or a"
-         " non-object container.",
+         " argument; if data is present it equals the defect-free reference apart from the defective key. Further defects: an undeclared"
+         " argument of a directive (also of one that declares none), a directive applied without its required argument, a required argument"
+         " written as a variable without a value. Second scenario (1 case in 16): a schema block naming Root as query type next to an object"
+         " type called Query; __schema / __type selected at the root (answered) and 1-3 levels below it (error, not answered, sibling kept)."
+         " Non-trivial = depth >= 2 or a non-object container.",
     level_text="Every defect kind of the statement is enumerated per case order; positions and contexts are sampled.",
     level_note="Trusted: reference executor for the defect-free request, fixtures' call log. Argument defects under reflection are exercised in the C03 universe (methods), not with reflect.StructOf fields.",
     assumptions=EXEC_ASSUME,
@@ -289,7 +292,9 @@ PROPS["C15"] = dict(
          " rendered with single-line or block-string descriptions, with or without commas. Oracle: p1=Root.SDL(false,true) is accepted by a"
          " fresh root; the canonical description (types, members, wrappers, defaults by value, descriptions, directive uses with defaults"
          " filled, union members, interfaces, directives) of the fresh root equals the original's; printing again gives p1; the same for"
-         " SDL without descriptions. One case in 20 also writes the schema to one or two files, runs `ggqlgen -w` and `ggqlgen -e` (binary"
+         " SDL without descriptions, and for the text put together from what every type and directive prints for itself (Type.SDL); the"
+         " root prints again - and must still round-trip - after a later load extending inputs and enums and after one that extends an"
+         " interface for only some implementers. One case in 20 also writes the schema to one or two files, runs `ggqlgen -w` and `ggqlgen -e` (binary"
          " built from the working tree) and compares the rewritten files / embedded constants the same way. Non-trivial = a description or"
          " string value needing an escape (schema level) / every tool case.",
     level_text="Round-trip search with an independent canonical reader; exploration.",
@@ -311,7 +316,8 @@ PROPS["C16"] = dict(
          " directive uses moved into 1-2 extend blocks per type; and both together - such that every interim schema is well-formed (non-empty"
          " bases, literal members pinned to the base). Oracle: all five agree on accepted/rejected; when accepted the canonical description"
          " (members sorted, directive-use defaults filled), the full introspection response (lists sorted) and a fixed set of requests are"
-         " identical. Non-trivial = an arrangement with a split or an extend block.",
+         " identical. The documents of the split arrangement are also read as the files of one directory (ParseFS: one load); a scalar may"
+         " be declared twice; names may differ only in case. Non-trivial = an arrangement with a split or an extend block.",
     level_text="Metamorphic search; arrangements are sampled, not enumerated (the space of permutations/partitions is factorial).",
     level_note="Trusted: describe.go; the arrangement generator's notion of a reference-preserving partition.",
     assumptions=SDL_ASSUME + ["extend blocks are written with an explicit body (the form ggql's grammar supports)"],
@@ -406,7 +412,9 @@ PROPS["C20"] = dict(
          " schedule is a list of choices. Part 1: five canonical programs (two publishers failing on one subscriber; unsubscribe racing the"
          " clean-up phase; publish/unsubscribe/subscribe mixes) - every block interleaving enumerated. Part 2: rapid-generated programs - all"
          " interleavings when <= 8 blocks (up to 3000), one drawn schedule otherwise. Part 3: 30+ rounds of 4-16 free-running goroutines"
-         " under -race. Oracle on logs stamped with a logical clock: <= 1 delivery per (publish, subscriber); <= 1 clean-up per subscriber;"
+         " under -race. Part 4: wide fan-out rounds under -race (66-205 subscribers that stay, behind a few that are removed and re-made"
+         " all the time; three publishers): every stable subscriber gets every event exactly once, every publish counts them all, and no"
+         " publish that starts after a publish with a failed delivery has returned reaches that subscriber. Oracle on logs stamped with a logical clock: <= 1 delivery per (publish, subscriber); <= 1 clean-up per subscriber;"
          " no delivery after the return of an unsubscribe that matches the subscriber; a publish that starts after a subscription returned"
          " reaches it unless an unsubscribe/failure intervened; deliveries only for matching ids; returned counts within the min..max over"
          " all sequential orders of the calls; no deadlock (decided from the goroutine states: a worker parked on a lock in two samples; the clock only says when to look); no race report. Non-trivial = another worker runs"
